@@ -3,6 +3,10 @@
 Deductive: Circle and Ellipse for a batch of Q points (Q symbolic) and a single point, every centre and either
 ordering of the semi-axes.  Ellipse.is_inside is a known finding (a one-sided box test, pinned by
 tests/test_ellipse.py::test_is_inside); its deviation clause pins what the code does instead.
+Polygon.is_inside (inherited by ConvexPolygon) on a symbolic number of edges and query points, (N,3), (N,2) and single
+points: the result is  floor(S/2) != 0  with S a sum over all edges whose summand is, edge by edge, the textbook signed
+crossing of an upward ray plus a term that telescopes around the vertex cycle (see polygon_is_inside).  Assumed: the
+winding-number theorem for simple polygons and the callee contract of _align_points_by_normal (C04).
 Bounded (never counted as proved): Polygon / ConvexPolygon winding-number code against exact rational
 point-in-polygon membership, in any plane, both orientations, (N,2) and (N,3) inputs, batch vs single.
 """
@@ -46,10 +50,170 @@ def run(chk):
         "float64 arithmetic treated as exact real arithmetic (points within rounding distance of the boundary are outside "
         "the property's scope); np.isclose(z, 0) is |z| <= 1e-8",
         "crossing-number characterisation of the interior of a simple polygon (oracle of the bounded stand-in)",
+        "winding-number theorem: for a simple closed polygon and a point off its boundary, the signed number of crossings of a "
+        "ray from the point (half-open rule at vertices) is +-1 inside and 0 outside",
+        "callee contract of _align_points_by_normal(normal, vertices): returns (vertices R^T, R) with R a rotation taking the "
+        "normal to +z (exercised in C04); Polygon.is_inside is verified for every (W, R) it may return",
     ]
     tasks = [("Circle", lambda c: CT.curved_is_inside(c, shapes, "Circle")),
              ("Ellipse", lambda c: CT.curved_is_inside(c, shapes, "Ellipse")),
              ("Ellipse-deviation", lambda c: ellipse_deviation(c, shapes))]
+    for mode in ("batch", "batch2", "single"):
+        tasks.append((f"Polygon-{mode}", lambda c, mode=mode: c.section(
+            f"Polygon.is_inside[{mode}]", "coxeter.shapes.polygon::Polygon.is_inside", lambda: polygon_is_inside(c, shapes, ld, mode))))
     chk.run_parallel(tasks)
     from .bounded_c06 import run_bounded
     run_bounded(chk)
+
+
+# ------------------------------------------------------------------------------------------------------------------
+# Polygon.is_inside (winding number by half-plane transitions) on a symbolic number of edges and of query points
+def polygon_is_inside(chk, shapes, ld, mode):
+    """Contract (per query point j, with q = R p_j the point rotated into the polygon's frame and W the rotated vertices):
+
+        is_inside_j  <=>  wn_j != 0,     wn_j = sum over edges e of c_e,
+
+    c_e the signed crossing of the upward ray {q + (0, t), t > 0} by edge e = (W_e, W_(e+1 mod n)) with the half-open
+    convention (a vertex on the ray's line belongs to the side its y points to).  Proved from the real code in four steps:
+    the result is  floor(S / 2) != 0  with S a sum over all edges; its summand h_e depends on the edge and the point only
+    through (W_e - q, W_(e+1) - q); per edge  h_e / 2 == c_e + psi(W_(e+1) - q) - psi(W_e - q)  (z3, all sign cases) whenever q
+    is not on the edge; and the psi terms telescope around the vertex cycle (Sigma normal form, cyclic shift).  The
+    winding-number theorem for simple polygons (wn = +-1 inside, 0 outside) is mathematics, not code, and is assumed."""
+    from pyvc import sigma
+    from pyvc.sym import Sym
+    from pyvc.symarr import SymArr, make
+    from . import mutators as M
+    pm = ld.load("coxeter.shapes.polygon")
+    fkey = chk.function("coxeter.shapes.polygon", "Polygon.is_inside")
+    NV = M.NV
+    Rs = [[sp.Symbol(f"R{i}{j}", real=True) for j in range(3)] for i in range(3)]
+    wf = sp.Function("Wv", real=True)
+    ncols = 2 if mode == "batch2" else 3
+
+    def run():
+        o = object.__new__(shapes.Polygon)
+        o._vertices = make("Vm", (NV, 3))
+        o._normal = np.array([Sym(sp.Symbol(f"nm{j}", real=True)) for j in range(3)], dtype=object)
+        W = make("Wv", (NV, 3))
+        Rm = np.array([[Sym(x) for x in r] for r in Rs], dtype=object)
+        old = pm._align_points_by_normal
+        # callee contract (C04): returns the vertices rotated into the z-plane frame and the rotation used
+        pm._align_points_by_normal = lambda n, v: (W, Rm)
+        try:
+            pts = CT.single_point() if mode == "single" else CT.batch_points(ncols)
+            return o.is_inside(pts)
+        finally:
+            pm._align_points_by_normal = old
+    if mode == "single":
+        point = [sp.Symbol(f"p{j}", real=True) for j in range(3)]
+    else:
+        point = [CT.pq[j] if j < ncols else sp.Integer(0) for j in range(3)]
+    q = [sum(Rs[i][j] * point[j] for j in range(3)) for i in range(2)]
+    x1, y1, x2, y2 = sp.symbols("x1 y1 x2 y2", real=True)
+    for p in chk.explore(fkey, run, assumptions=NV.facts() + (CT.Q.facts() if mode != "single" else [])):
+        if p.kind != "return":
+            continue
+        t = f"{mode}:{path_tag(p)}"
+        try:
+            code = CT.elem_bool(p.value, mode == "single")
+        except ValueError as e:
+            chk.record(f"Polygon.is_inside:one_result_per_point[{t}]", fkey, "refuted", "shape", detail=str(e), model={})
+            continue
+        chk.record(f"Polygon.is_inside:one_result_per_point[{t}]", fkey, "proved", "shape")
+        if code in (sp.true, sp.false):
+            # a single point: numpy turned the comparison into a Python bool, i.e. a branch; the decision is in the path condition
+            dec = [c_ for c_ in p.pc if getattr(c_, "atoms", None) and c_.atoms(sp.Sum)]
+            if len(dec) != 1:
+                chk.record(f"Polygon.is_inside:result_is_floor_of_half_the_edge_sum_nonzero[{t}]", fkey, "unknown", "structure",
+                           detail=f"{len(dec)} deciding conditions", model={})
+                continue
+            code = dec[0] if code is sp.true else sp.Not(dec[0])
+            if isinstance(code, sp.Eq) and False:
+                pass
+            if isinstance(code, sp.Not) and isinstance(code.args[0], sp.Eq):
+                code = sp.Ne(*code.args[0].args)
+        # (1) floor(S / 2) != 0 with S one sum over the edge axis
+        sums = list(code.atoms(sp.Sum))
+        S = sums[0] if len(sums) == 1 else None
+        ok = S is not None and S.limits[0][1] == 0 and sp.expand(S.limits[0][2] - (NV.n - 1)) == 0 and \
+            code.xreplace({S: sp.Symbol("S_", integer=True)}) in (sp.Ne(sp.floor(sp.Symbol("S_", integer=True) / 2), 0),)
+        chk.record(f"Polygon.is_inside:result_is_floor_of_half_the_edge_sum_nonzero[{t}]", fkey, "proved" if ok else "unknown",
+                   "structure", detail=str(code)[:200] if not ok else "", model={},
+                   goal="is_inside_j == (floor(sum_e h_e / 2) != 0), the sum running over all n edges")
+        if not ok:
+            continue
+        e = S.limits[0][0]
+        body = S.function
+        nxt = sp.Mod(e + 1, NV.n)
+        # (2) the summand depends on (edge, point) only through the endpoint offsets from the rotated point
+        sub = {wf(e, sp.Integer(0)): x1 + q[0], wf(e, sp.Integer(1)): y1 + q[1],
+               wf(nxt, sp.Integer(0)): x2 + q[0], wf(nxt, sp.Integer(1)): y2 + q[1]}
+        h = _expand_inside(body.xreplace(sub))
+        leftover = (h.free_symbols - {x1, y1, x2, y2}) | {a for a in h.atoms(sp.Function) if isinstance(a, sp.core.function.AppliedUndef)}
+        chk.record(f"Polygon.is_inside:edge_term_depends_only_on_offsets_from_the_rotated_point[{t}]", fkey,
+                   "proved" if not leftover else "refuted", "substitution", detail=str(sorted(map(str, leftover)))[:200], model={},
+                   goal="h_e is a function of (W_e - R p, W_(e+1 mod n) - R p): same rotation for points and vertices, "
+                        "second endpoint is the cyclic successor", replay=_replay_polygon_inside)
+        if leftover:
+            continue
+        # (3) per-edge lemma against the textbook signed ray crossing (upward ray, half-open rule)
+        inR = lambda x, y: sp.Or(sp.Gt(x, 0), sp.And(sp.Eq(x, 0), sp.Gt(y, 0)))    # noqa: E731
+        inL = lambda x, y: sp.Or(sp.Lt(x, 0), sp.And(sp.Eq(x, 0), sp.Lt(y, 0)))    # noqa: E731
+        psi = lambda x, y: sp.Piecewise((sp.Rational(1, 4), inR(x, y)), (-sp.Rational(1, 4), inL(x, y)), (0, True))   # noqa: E731
+        # y-coordinate (times the positive factor |x1 - x2|) at which the edge's line meets x = 0
+        ystar_pos = sp.Piecewise(((x1 * y2 - x2 * y1), sp.Gt(x1, x2)), (-(x1 * y2 - x2 * y1), True))
+        above = sp.Gt(ystar_pos, 0)
+        c = sp.Piecewise((1, sp.And(inR(x1, y1), inL(x2, y2), above)), (-1, sp.And(inL(x1, y1), inR(x2, y2), above)), (0, True))
+        # the point is not on the edge (boundary points are outside the property's scope)
+        cross = x1 * y2 - x2 * y1
+        on_edge = sp.And(sp.Eq(cross, 0), sp.Le(x1 * x2 + y1 * y2, 0))
+        chk.prove(f"Polygon.is_inside:edge_term_is_signed_ray_crossing_up_to_telescoping[{t}]", fkey, [sp.Not(on_edge)],
+                  sp.Eq(h / 2, c + psi(x2, y2) - psi(x1, y1)), replay=_replay_polygon_inside)
+        chk.reachable(f"Polygon.is_inside:edge_lemma_precondition[{t}]", fkey, [sp.Not(on_edge), inR(x1, y1), inL(x2, y2)])
+        # (4) the telescoping terms cancel around the vertex cycle
+        g = sp.Function("psi_at", real=True)
+        tele = sigma.is_zero(sp.Sum(g(wf(sp.Mod(e + 1, NV.n), sp.Integer(0)), wf(sp.Mod(e + 1, NV.n), sp.Integer(1)))
+                                    - g(wf(e, sp.Integer(0)), wf(e, sp.Integer(1))), (e, 0, NV.n - 1)))
+        chk.record(f"Polygon.is_inside:telescoping_terms_cancel_around_the_cycle[{t}]", fkey, "proved" if tele else "unknown",
+                   "sigma-normal-form", model={}, goal="sum_e psi(W_(e+1 mod n)) - psi(W_e) == 0")
+    chk.canary("canary:polygon_edge_lemma_without_telescoping", fkey, [],
+               sp.Eq(sp.sign(x1 * y2 - x2 * y1), 2 * sp.Piecewise((1, sp.Gt(x1, 0)), (0, True))))
+
+
+def _expand_inside(e):
+    """expand the arguments of sign / relations so that substituted offsets cancel"""
+    def rec(x):
+        if not x.args:
+            return x
+        args = [rec(a) for a in x.args]
+        if isinstance(x, sp.sign):
+            return sp.sign(sp.expand(args[0]))
+        if isinstance(x, sp.core.relational.Relational):
+            return x.func(sp.expand(args[0] - args[1]), 0)
+        return x.func(*args)
+    return rec(sp.sympify(e))
+
+
+def _replay_polygon_inside(model):
+    """exact point-in-polygon (rational crossing number) on non-convex polygons whose vertices share x coordinates with
+    the query points"""
+    from bounded import oracle
+    from .common import real_coxeter
+    cox = real_coxeter()
+    polys = {"arrow": [(0, 0), (4, -3), (1, 0), (4, 3)], "L": [(0, 0), (2, 0), (2, 1), (1, 1), (1, 2), (0, 2)],
+             "zigzag": [(-2, 4), (3, 4), (3, -1), (1, 2), (0, -1), (-1, 2), (-2, -1)]}
+    for name, pts in polys.items():
+        for rev in (False, True):
+            P = list(reversed(pts)) if rev else pts
+            poly = cox.shapes.Polygon([[float(x), float(y), 0.0] for x, y in P])
+            xs = sorted({x for x, _ in pts})
+            grid = [(x + dx, y / 2) for x in xs for dx in (0, 0.5) for y in range(-9, 12)]
+            for (qx, qy) in grid:
+                want = oracle.point_in_polygon((qx, qy), P)
+                if want == 0:
+                    continue
+                got = bool(np.asarray(poly.is_inside([[qx, qy, 0.0]])).reshape(-1)[0])
+                if got != (want > 0):
+                    return True, {"polygon": name, "reversed": rev, "vertices": P, "point": [qx, qy], "is_inside": got,
+                                  "exactly_inside": want > 0}
+    return False, {}
